@@ -40,10 +40,12 @@ enum Call {
     MpPrintln,
     MpAddDrop,
     MpRemoveAdd,
+    /// remove the shared bar (other threads keep calling into it) and add it again
+    MpRemoveShared,
 }
 
 fn gen_call(rng: &mut Rng, multi: bool) -> Call {
-    let n = if multi { 15 } else { 12 };
+    let n = if multi { 17 } else { 12 };
     match rng.below(n) {
         0 | 1 => Call::Update,
         2 => Call::Tick,
@@ -58,7 +60,8 @@ fn gen_call(rng: &mut Rng, multi: bool) -> Call {
         11 => if rng.chance(1, 2) { Call::CloneDrop } else { Call::Position },
         12 => Call::MpPrintln,
         13 => Call::MpAddDrop,
-        _ => Call::MpRemoveAdd,
+        14 => Call::MpRemoveAdd,
+        _ => Call::MpRemoveShared,
     }
 }
 
@@ -91,6 +94,12 @@ fn do_call(c: &Call, pb: &ProgressBar, mp: &Option<MultiProgress>) {
                 let b = mp.add(ProgressBar::with_draw_target(Some(3), ProgressDrawTarget::hidden()));
                 b.tick();
                 drop(b);
+            }
+        }
+        Call::MpRemoveShared => {
+            if let Some(mp) = mp {
+                mp.remove(pb);
+                let _ = mp.add(pb.clone());
             }
         }
         Call::MpRemoveAdd => {
